@@ -117,6 +117,34 @@ Section WithHash.
     - intros E. injection E as E. subst i. apply Hc. reflexivity.
   Qed.
 
+  (* ---------------- post-conditions of the successful calls ---------------- *)
+  Theorem execute_marks_done s c o :
+    executes c = Some o -> is_ok (snd (step s c)) = true ->
+    state_of (tls (fst (step s c))) (hash o) = Done.
+  Proof.
+    intros He Hok. apply is_ok_true_iff in Hok. destruct (step_cases s c) as [[Hf _]|[_ H]]; [contradiction|].
+    destruct c as [o' d|o' t|o'|i|d|n]; cbn in He; inversion He; subst o'.
+    - destruct H as (_ & _ & -> & _). apply state_done_iff. apply mark_set_eq.
+    - destruct H as (_ & -> & _). apply state_done_iff. apply mark_set_eq.
+  Qed.
+  Theorem cancel_clears s i :
+    is_ok (snd (step s (Cancel i))) = true ->
+    (state_of (tls s) i = Waiting \/ state_of (tls s) i = Ready) /\ state_of (tls (fst (step s (Cancel i)))) i = Unset.
+  Proof.
+    intros Hok. apply is_ok_true_iff in Hok. destruct (step_cases s (Cancel i)) as [[Hf _]|[_ H]]; [contradiction|].
+    destruct H as (_ & -> & Hp). split; [exact Hp|]. apply state_unset_iff. apply mark_del_eq.
+  Qed.
+  Theorem schedule_stores_ready_ledger s o d :
+    0 <= now (tls s) -> is_ok (snd (step s (Schedule o d))) = true ->
+    state_of (tls s) (hash o) = Unset /\ (exists m, min_delay (tls s) = Some m /\ m <= d) /\
+    snd (step s (Schedule o d)) = Ok (Some (hash o)) /\
+    mark (tls (fst (step s (Schedule o d)))) (hash o) = Z.min (now (tls s) + d) MAXU32.
+  Proof.
+    intros Hn Hok. apply is_ok_true_iff in Hok. destruct (step_cases s (Schedule o d)) as [[Hf _]|[_ H]]; [contradiction|].
+    destruct H as (Hr & -> & Hm & Hd & m & Hmin & Hle). split; [apply state_unset_iff; exact Hm|].
+    split; [exists m; auto|]. split; [exact Hr|]. cbn [with_tl tls]. rewrite mark_set_eq. apply sat_add_u32_spec. lia.
+  Qed.
+
   (* ---------------- persistence: only calls change what is stored ---------------- *)
   Theorem min_delay_frame s c :
     min_delay (tls (fst (step s c))) <> min_delay (tls s) -> exists d, c = SetMinDelay d.
